@@ -69,14 +69,14 @@ def frames_of(ctx, binp, msgs):
     return []
 
 
-def replay(ctx, binp, sessions, tag, nworkers=None, msgms=20000, keep_bytes=False, selftest=None, timeout=3000):
+def replay(ctx, binp, sessions, tag, nworkers=None, msgms=20000, keep_bytes=False, selftest=None, timeout=3000, maxslow=40):
     """sessions: list of {"id", "msgs"}; returns {id: result}"""
     inp = os.path.join(ctx.scratch, "sess-%s.ndjson" % tag)
     with open(inp, "w") as f:
         for s in sessions:
             f.write(json.dumps({"id": s["id"], "msgs": s["msgs"]}) + "\n")
     argv = [binp, "replay", "-in", inp, "-dir", os.path.join(ctx.scratch, "rp-" + tag), "-seed", str(ctx.seed),
-            "-workers", str(nworkers or workers()), "-msgms", str(msgms)]
+            "-workers", str(nworkers or workers()), "-msgms", str(msgms), "-maxslow", str(maxslow)]
     if keep_bytes:
         argv.append("-bytes")
     if selftest:
@@ -116,8 +116,8 @@ def run_callee(what):
     for g in (what or "").split("\n\n"):
         fr = FRAME.findall(g)
         for i, f in enumerate(fr):
-            if f.endswith("(*OneConnection).Run") and i > 0:
-                return fr[i - 1]
+            if f.endswith("(*OneConnection).Run"):
+                return fr[i - 1] if i > 0 else "Run(epilogue)"
     return "?"
 
 
@@ -168,6 +168,40 @@ def export(ctx, cfg, defines, tag):
     return r, lines
 
 
+def norm(out):
+    """whether a handler adds misbehaviour points is the code's free choice: only 'goes on' vs 'disconnected' is compared"""
+    return "ok" if out in ("ok", "ignored", "penalised") else out
+
+
+def repeat_sessions(sessions, res, start_id, ban=1000, maxrep=22):
+    """'repeat until banned' skeleton: every class the node answers with misbehaviour points is repeated until the
+    score rule of the model (BanScore) predicts the ban, and once more. Before the handshake one class per command."""
+    best = {}
+    for s in sessions:
+        r = res[s["id"]]
+        steps = r.get("steps") or []
+        if r.get("viol") or r.get("notrun") or len(steps) != len(s["msgs"]) or steps[-1].get("out") != "penalised":
+            continue
+        if not s["pre"]["ver"] and s["last"]["k"] != "valid" and s["last"]["cmd"] != "version":
+            continue
+        after = (steps[-1].get("st") or {}).get("score", 0)
+        before = (steps[-2].get("st") or {}).get("score", 0) if len(steps) > 1 else 0
+        d = after - before
+        if d <= 0 or after >= ban:
+            continue
+        key = (s["pre"]["ver"], ckey(s["last"]))
+        if key not in best or len(s["msgs"]) < len(best[key][0]["msgs"]):
+            best[key] = (s, before, d)
+    out = []
+    for key in sorted(best, key=str):
+        s, before, d = best[key]
+        need = -(-(ban - before) // d)            # the repetition that takes the score to the threshold
+        reps = min(need + 1, maxrep)
+        out.append({"id": start_id + len(out), "msgs": s["msgs"][:-1] + [s["last"]] * reps, "path_len": len(s["msgs"]) - 1,
+                    "ban_at": len(s["msgs"]) - 1 + need if need <= reps else None, "delta": d, "last": s["last"], "pre": s["pre"]})
+    return out
+
+
 def sessions_of(lines, start_id):
     """group exported transitions by message sequence; one session per sequence"""
     by = collections.OrderedDict()
@@ -176,8 +210,7 @@ def sessions_of(lines, start_id):
         s = by.get(key)
         if s is None:
             s = by[key] = {"msgs": ln["path"] + [ln["last"]], "pre": ln["pre"], "det": ln["det"], "preds": set(), "last": ln["last"]}
-        out = "ok" if ln["out"] == "ignored" else ln["out"]
-        s["preds"].add((out, frozen(ln["st"])))
+        s["preds"].add((norm(ln["out"]), frozen(ln["st"])))
     out = []
     for i, s in enumerate(by.values()):
         s["id"] = start_id + i
@@ -201,7 +234,7 @@ def compare(sess, r):
         return None
     if steps[-1].get("obs"):          # Run() left without its teardown: for the model that is "disconnected"
         st["alive"] = False
-    got = (steps[-1]["out"], frozen(st))
+    got = (norm(steps[-1]["out"]), frozen(st))
     if got in sess["preds"]:
         return None
     return "model predicts %s, node shows %s" % (sorted(sess["preds"])[:2], got)
@@ -215,7 +248,8 @@ def run(ctx):
     states = transitions = 0
 
     # ---- 1. the design
-    r = mc(ctx, {}, "whole alphabet")
+    # (quick: one representative class kind per perturbation family; the lock programs do not depend on the kind)
+    r = mc(ctx, dict(KINDS='"trunc","into","min","cnt+1","cntwrap","vec+1","lenover1","val+1","valff","badmagic","badsum","encflag","lenover1","cmdfull","oversize","encflag0"') if quick else {}, "whole alphabet")
     states, transitions = r.distinct, r.generated
     r = mc(ctx, dict(MAXPRE=11, MAXPOST=12, CMDS='"ping","version","getaddr","blocktxn"', KINDS='"valid"'), "score up to the ban")
     states += r.distinct
@@ -243,7 +277,8 @@ def run(ctx):
     _, blines = export(ctx, "P2P_genban", dict(MAXPRE=11, MAXPOST=3, CMDS='"ping","version","getaddr","blocktxn"', KINDS='"valid"'), "ban")
     sessions = sessions_of(lines, 1)
     sessions += sessions_of(blines, len(sessions) + 1)
-    cap = 9000 if quick else 45000
+    cap = 10000 if quick else 60000
+    ctx.cov["sessions_exported"] = len(sessions)
     if len(sessions) > cap:
         rnd = random.Random(ctx.seed)
         keep = [s for s in sessions if s["det"]]
@@ -251,7 +286,7 @@ def run(ctx):
         rnd.shuffle(rest)
         sessions = keep + rest[:max(0, cap - len(keep))]
         ctx.cov["sampled"] = True
-    ctx.log("%d exported transitions -> %d sessions over %d payload classes" % (len(lines) + len(blines), len(sessions), len(spec_alpha)))
+    ctx.log("%d exported transitions -> %d sessions (of %d) over %d payload classes" % (len(lines) + len(blines), len(sessions), ctx.cov["sessions_exported"], len(spec_alpha)))
 
     # ---- 3. replay on the real node
     res = replay(ctx, binp, sessions, "main")
@@ -280,6 +315,28 @@ def run(ctx):
         ctx.cov["sessions_not_run"] = notrun
     ctx.log("replayed %d sessions: %d with a violation, %d predictions compared, %d diverged before the last step, %d drifted"
             % (len(sessions), len(viol), compared, diverged, len(drift)))
+
+    # ---- 3b. repeat until banned: every penalised class again and again, all locks probed after every message
+    reps = repeat_sessions(sessions, res, len(sessions) + 1000000)
+    res2 = replay(ctx, binp, reps, "repeat", maxslow=8) if reps else {}
+    banned_ok = ban_other = 0
+    for s in reps:
+        rr = res2[s["id"]]
+        if rr.get("viol"):
+            viol.append((s, rr))
+            continue
+        steps = rr.get("steps") or []
+        hit = next((i for i, st in enumerate(steps) if (st.get("st") or {}).get("score", 0) >= 1000), None)
+        if hit is not None and (steps[hit].get("st") or {}).get("alive"):
+            drift.append((s, rr, "score %s reached at message %d but the connection goes on (model: BannedIsDead)" % (steps[hit]["st"]["score"], hit + 1)))
+        elif hit is not None and hit == (s["ban_at"] or 0) - 1:
+            banned_ok += 1
+        else:
+            ban_other += 1
+    ctx.log("repeat-until-banned: %d sessions (%d messages), %d banned exactly where the score rule predicts, %d ended otherwise, %d with a violation"
+            % (len(reps), sum(len(s["msgs"]) for s in reps), banned_ok, ban_other, sum(1 for s in reps if res2[s["id"]].get("viol"))))
+    ctx.cov["repeat_until_banned"] = {"sessions": len(reps), "banned_as_predicted": banned_ok, "ended_otherwise": ban_other}
+    nrep = len(reps)
 
     # ---- 4. each kind of violation once more, alone, in a fresh process (this is the verdict and the replay file)
     bysig = collections.OrderedDict()
@@ -327,7 +384,7 @@ def run(ctx):
             ctx.sample({"session": [cname(m) for m in s["msgs"]], "model": sorted(s["preds"])[0][0],
                         "node": [st.get("out") for st in rr.get("steps") or []], "replies": (rr.get("steps") or [{}])[-1].get("rep")})
     ctx.cov.update({
-        "evaluations": len(sessions) - notrun + lib_cases, "distinct_nontrivial": len(nontrivial),
+        "evaluations": len(sessions) - notrun + nrep + lib_cases, "distinct_nontrivial": len(nontrivial),
         "sessions_replayed": len(sessions), "payload_classes": len(spec_alpha), "abstract_session_states": r.distinct,
         "states": states, "transitions": transitions, "predictions_compared": compared, "diverged_sessions": diverged,
         "library_cases": lib_cases, "library_cases_by_target": lib_by_target,
